@@ -41,7 +41,7 @@ SER_REWRITES = [
     {'rule': 'R7', 'find': 'let mut data = Vec::new();',
      'replace': 'hide(group_k); hide(arity_k); hide(pre_k); hide(expected_k); hide(is_relational_k); hide(rel_relational_k); hide(new_last_k); let mut ops = ops_in; let mut data = Out::new(); let ghost ops0 = ops@; proof { lemma_tail_start(ops0); lemma_reads_start(ops0); } let ghost mut n: int = 0; '
                 'let ghost mut cuts: Seq<int> = seq![0int]; let ghost mut lasts: Seq<Point> = seq![origin()];'},
-    {'rule': 'R1', 'find': 'let mut advance = 1;', 'replace': 'let mut advance = 1; let ghost s0 = f.st(); proof { lemma_tail_idx(ops@, ops0, n); }'},
+    {'rule': 'R1', 'find': 'let mut advance = 1;', 'replace': 'let mut advance = 1; let ghost s0 = f.st(); proof { lemma_tail_idx(ops@, ops0, n); lemma_ok_idx(ops0, n); }'},
     {'rule': 'R1', 'find': 'ops = &ops[advance..];',
      'replace': 'proof { lemma_tail(ops@, ops0, n, advance as int); let rec = f.st().recs.last(); let cnt = row_count(rec, s0.last);\n'
                 ' assert(%s ==> advance == cnt); //@L window_advance\n'
@@ -86,7 +86,7 @@ SER_REWRITES = [
 
 INNER_ARGS_INV = [
     '%s ==> st_rest(s0)' % H, '%s ==> forall|j: int| 0 <= j < args@.len() ==> prim_ok(#[trigger] args@[j])' % H,
-    '%s ==> (f.st().recs == s0.recs && f.st().last == s0.last && prefix_is(f.st().pend, args@, it.index@ as int) && !f.st().bad && !f.st().glued && f.st().arr is None)' % H,
+    '%s ==> (f.st().recs == s0.recs && f.st().last == s0.last && prefix_is(seq_of(f.st().pend), args@, it.index@ as int) && !f.st().bad && !f.st().glued && f.st().arr is None)' % H,
 ]
 INNER_TJ_INV = [
     '%s ==> st_rest(s0)' % H, '%s ==> forall|j: int| 0 <= j < array@.len() ==> tja_ok(#[trigger] array@[j])' % H,
